@@ -19,9 +19,11 @@ Definition enc_res (r : res) : V :=
 Definition enc_step (x : option res * st * nat) : V :=
   match x with (r, s, n) => VL [vopt enc_res r; vtext (pend s); vtext (buf s); vnat n] end.
 
-Definition hist_case := (list Op * list ev * st)%type.
+(** a history on a spawn object whose searchwindowsize attribute is [attr]; each call carries the window the caller gave
+    and a flag "no window given" *)
+Definition hist_case := (option nat * list (Op * bool) * list ev * st)%type.
 Definition run_hist (c : hist_case) : V :=
-  match c with (ops, evs, s0) => vlist enc_step (history rx rx_search ops s0 evs) end.
+  match c with (attr, ops, evs, s0) => vlist enc_step (history rx rx_search (map (resolve_op attr) ops) s0 evs) end.
 
 (** regex engine alone: [r.search(t, pos)] *)
 Definition run_rx (c : rx * list N * nat) : V :=
